@@ -15,6 +15,8 @@ import (
 	"flag"
 	"fmt"
 	"go/ast"
+	"go/importer"
+	"go/parser"
 	"go/token"
 	"go/types"
 	"os"
@@ -44,10 +46,37 @@ type oenv struct {
 	t     *hutil.Target
 	sizes types.Sizes
 	pkgs  map[string]*types.Package
+	imp   types.Importer // the importer the probe file was type-checked with: one universe for the oracle
 }
 
-func newOenv(t *hutil.Target) *oenv {
-	o := &oenv{t: t, sizes: types.SizesFor("gc", "amd64"), pkgs: map[string]*types.Package{t.Pkg.Path(): t.Pkg}}
+// checkTarget is hutil.CheckTarget that also returns the importer, so the go/types oracle can load packages the
+// probe file does not import into the probe file's own type-check universe (the engine never sees them: it gets
+// t.Pkg, whose import list does not change).
+func checkTarget(dir, name string, src []byte) (*hutil.Target, types.Importer, error) {
+	path := filepath.Join(dir, name)
+	if err := os.MkdirAll(filepath.Dir(path), 0o755); err != nil {
+		return nil, nil, err
+	}
+	if err := os.WriteFile(path, src, 0o644); err != nil {
+		return nil, nil, err
+	}
+	fset := token.NewFileSet()
+	f, err := parser.ParseFile(fset, path, src, parser.ParseComments)
+	if err != nil {
+		return nil, nil, err
+	}
+	info := hutil.NewInfo()
+	imp := importer.ForCompiler(fset, "source", nil)
+	conf := types.Config{Importer: imp, Error: func(error) {}}
+	pkg, err := conf.Check(f.Name.Name, fset, []*ast.File{f}, info)
+	if err != nil {
+		return nil, nil, fmt.Errorf("typecheck %s: %v", name, err)
+	}
+	return &hutil.Target{Fset: fset, File: f, Info: info, Pkg: pkg, Src: src, Path: path}, imp, nil
+}
+
+func newOenv(t *hutil.Target, imp types.Importer) *oenv {
+	o := &oenv{t: t, imp: imp, sizes: types.SizesFor("gc", "amd64"), pkgs: map[string]*types.Package{t.Pkg.Path(): t.Pkg}}
 	for _, imp := range t.Pkg.Imports() {
 		o.pkgs[imp.Path()] = imp
 	}
@@ -61,7 +90,13 @@ func (o *oenv) lookup(fqn string) types.Type {
 	}
 	pkg := o.pkgs[fqn[:i]]
 	if pkg == nil {
-		panic("oracle: package not imported by the probe file: " + fqn)
+		// not imported by the probe file: loaded into the same universe for the oracle only
+		p, err := o.imp.Import(fqn[:i])
+		if err != nil {
+			panic("oracle: cannot import " + fqn[:i] + ": " + err.Error())
+		}
+		o.pkgs[fqn[:i]] = p
+		pkg = p
 	}
 	obj := pkg.Scope().Lookup(fqn[i+1:])
 	if obj == nil {
@@ -264,7 +299,7 @@ func main() {
 
 	for fi := 0; fi < *nFiles; fi++ {
 		src := genTarget(*seed, fi)
-		t, err := hutil.CheckTarget(*tmp, fmt.Sprintf("t%d/target.go", fi), []byte(src))
+		t, timp, err := checkTarget(*tmp, fmt.Sprintf("t%d/target.go", fi), []byte(src))
 		if err != nil {
 			fatal(fmt.Sprintf("generated probe file %d: %v", fi, err))
 		}
@@ -274,7 +309,7 @@ func main() {
 			byBlock[s.BlockOff] = s
 		}
 		sum.Sites += len(sites)
-		o := newOenv(t)
+		o := newOenv(t, timp)
 
 		// acc[group][blockOff] = report; dead[group] = the group panicked on this file
 		acc := map[string]map[int]hutil.Report{}
